@@ -24,5 +24,21 @@ pub fn run() -> Vec<String> {
     ck("exact 2^53", exact_decimal(9007199254740992.0).as_deref() == Some("9007199254740992.0"));
     ck("exact -0", exact_decimal(-0.0).as_deref() == Some("-0.0"));
     ck("exact min subnormal", exact_decimal(f64::from_bits(1)).map(|s| s.starts_with("0.000") && s.ends_with("4940656458412465441765687928682213723650598026143247644255856825006755072702087518652998363616359923797965646954457177309266567103559397963987747960107818781263007131903114045278458171678489821036887186360569987307230500063874091535649843873124733972731696151400317153853980741262385655911710266585566867681870395603106249319452715914924553293054565444011274801297099995419319894090804165633245247571478690147267801593552386115501348035264934720193790268107107491703332226844753335720832431936092382893458368060106011506169809753078342277318329247904982524730776375927247874656084778203734469699533647017972677717585125660551199131504891101451037862738167250955837389733598993664809941164205702637090279242767544565229087538682506419718265533447265625")).unwrap_or(false));
+    {
+        use crate::model::dur::*;
+        // Go documentation examples for time.Duration.String and time.ParseDuration
+        for (ns, want) in [(0i128, "0s"), (1, "1ns"), (1100, "1.1µs"), (2200000, "2.2ms"), (3300000000, "3.3s"), (245000000000, "4m5s"), (245001000000, "4m5.001s"), (18367001000000, "5h6m7.001s"), (480000000001, "8m0.000000001s"),
+            (i64::MAX as i128, "2562047h47m16.854775807s"), (i64::MIN as i128, "-2562047h47m16.854775808s"), (5400000000000, "1h30m0s"), (1500000, "1.5ms"), (-2000000000, "-2s"), (60000000000, "1m0s"), (3600000000000, "1h0m0s"), (999, "999ns"), (1000, "1µs")] {
+            ck(&format!("go_format {ns}"), go_format(ns) == want);
+            ck(&format!("parse(go_format {ns})"), matches!(parse(want), Parsed::Ok { lo, hi, .. } if lo == ns && hi == ns));
+        }
+        ck("parse 1.5h", matches!(parse("1.5h"), Parsed::Ok { lo: 5400000000000, hi: 5400000000000, .. }));
+        ck("parse 1h10m10s", matches!(parse("1h10m10s"), Parsed::Ok { lo: 4210000000000, .. }));
+        ck("parse -1.5h", matches!(parse("-1.5h"), Parsed::Ok { lo: -5400000000000, .. }));
+        ck("parse 1.1ns inexact", matches!(parse("1.1ns"), Parsed::Ok { lo: 1, hi: 2, .. }));
+        for bad in ["", "3", "-", "s", ".", "-.", ".s", "+.s", "1d", "1s foo", "1 s", "1e3s", "infs", "--1s", "1s-1s"] {
+            ck(&format!("parse malformed {bad:?}"), matches!(parse(bad), Parsed::Malformed(_)));
+        }
+    }
     errs
 }
